@@ -191,6 +191,15 @@ def _basics(case, ctx, g):
         Cint = d_fresh.covariance_matrix  # (the factor is of the covariance in the layout the object stores)
         ctx.close("scale_tril", Lt @ Lt.transpose(-1, -2), Cint.expand(*Lt.shape[:-2], *Cint.shape[-2:]), (1e-7, 1e-7), cls=lay + ":above_size_threshold")
         ctx.expect("scale_tril_is_lower_triangular", bool((Lt.triu(1) == 0).all()), "scale_tril has entries above the diagonal", layout=lay)
+    # expand: the same joint repeated along new leading batch dimensions, layout kept
+    try:
+        de = d_fresh.expand(torch.Size([3, *b]))
+        ctx.close("expand", de.mean, M.expand(3, *b, n, t), "bit", cls=lay + ":expand:mean")
+        ctx.close("expand", _canon(de.covariance_matrix, n, t, de._interleaved), C.expand(3, *b, n * t, n * t), "direct", cls=lay + ":expand:cov")
+        ctx.close("expand", de.log_prob(v), ref.expand(3, *ref.shape), "direct", cls=lay + ":expand:log_prob")
+        ctx.expect("expand_keeps_layout", de._interleaved == d_fresh._interleaved and tuple(de.batch_shape) == (3, *b) and tuple(de.event_shape) == (n, t), f"expand: layout {de._interleaved}, batch {tuple(de.batch_shape)}, event {tuple(de.event_shape)}")
+    except Exception as e:
+        ctx.fail("expand", f"expand raised {type(e).__name__}: {str(e)[:140]}", "raise", exc=type(e).__name__, layout=lay)
     vs = M + util.randn(g, 3, *b, n, t)
     refs = util.mvn_logpdf(vs.reshape(3, *b, -1), M.reshape(*b, -1), C)
     ctx.close("log_prob", d.log_prob(vs), refs, "direct", cls=lay + ":sample-batch")
